@@ -4,6 +4,7 @@ import (
 	"encoding/json"
 	"fmt"
 	"net"
+	"runtime"
 	"strings"
 	"sync"
 	"time"
@@ -398,8 +399,14 @@ func runTCP(in *Input, items []sentItem, pl *pool, identIdx *int, coqItems *[]st
 		if _, err := down.Write(s); err != nil {
 			break // B has closed: observed below
 		}
+		// a pause lets the receiver drain the segment before the next one is
+		// written (best effort; long streams only yield)
 		if i+1 < len(segs) {
-			time.Sleep(60 * time.Microsecond)
+			if i < 150 {
+				time.Sleep(60 * time.Microsecond)
+			} else {
+				runtime.Gosched()
+			}
 		}
 	}
 	// the last legitimate message of every generated stream is a sentinel
@@ -420,7 +427,16 @@ func runTCP(in *Input, items []sentItem, pl *pool, identIdx *int, coqItems *[]st
 		}
 		return false
 	}
-	deadline := time.Now().Add(600 * time.Millisecond)
+	// The stream is over when the closing sentinel has arrived or B has dropped
+	// the connection. Otherwise B is out of step and waits for bytes that will
+	// never come: that is declared only after B has READ everything that was
+	// written (its socket's receive queue is empty) and nothing has happened for
+	// a while -- or, where /proc/net/tcp is not available, after 1.5 s.
+	bPort := portOfAddr(addrB.NetworkAddress())
+	myPort := portOfAddr(down.LocalAddr().String())
+	start := time.Now()
+	var idleSince time.Time
+	lastCount := -1
 wait:
 	for {
 		select {
@@ -432,11 +448,31 @@ wait:
 		if wantSentinel >= 0 && sentinelSeen() {
 			break
 		}
-		if time.Now().After(deadline) {
+		logMu.Lock()
+		cnt := len(dl)
+		logMu.Unlock()
+		q, ok := rxQueue(bPort, myPort)
+		now := time.Now()
+		switch {
+		case !ok && now.Sub(start) > 1500*time.Millisecond:
 			o.stalled = true
+			break wait
+		case ok && q == 0 && cnt == lastCount:
+			if idleSince.IsZero() {
+				idleSince = now
+			} else if now.Sub(idleSince) > 150*time.Millisecond {
+				o.stalled = true
+				break wait
+			}
+		default:
+			idleSince = time.Time{}
+		}
+		lastCount = cnt
+		if now.Sub(start) > 30*time.Second {
+			o.discard = "receiver did not finish within 30 s"
 			break
 		}
-		time.Sleep(300 * time.Microsecond)
+		time.Sleep(time.Millisecond)
 	}
 	if !o.closed {
 		// give a close that is already on its way the chance to be seen
@@ -617,7 +653,7 @@ func runStream(in *Input) lib.Case {
 		obs["read_calls"] = o.reads
 	}
 	if o.stalled {
-		obs["stalled"] = "neither the closing sentinel arrived nor was the connection closed within 600 ms"
+		obs["stalled"] = "the receiver has read every byte; neither the closing sentinel arrived nor was the connection closed"
 	}
 	if o.crash != "" {
 		obs["crash"] = o.crash
@@ -953,4 +989,19 @@ func runInput(raw json.RawMessage) lib.Case {
 		return runConc(&in)
 	}
 	panic("unknown input kind " + in.Kind)
+}
+
+func portOfAddr(a string) int {
+	_, p, err := net.SplitHostPort(a)
+	if err != nil {
+		return -1
+	}
+	n := 0
+	for _, c := range p {
+		if c < '0' || c > '9' {
+			return -1
+		}
+		n = n*10 + int(c-'0')
+	}
+	return n
 }
